@@ -619,7 +619,19 @@ func (hfh *HttpForwarderHandlerV2) constructPost(ctx context.Context, logger log
 
 func (hfh *HttpForwarderHandlerV2) DispatchEvent(ctx context.Context, e *gostatsd.Event) {
 	hfh.eventWg.Add(1)
-	go hfh.dispatchEvent(ctx, e)
+	// The event is posted on its own goroutine, after this function has returned.  Detach it from the caller's
+	// cancellation: for an event received on /v2/event ctx is the request context, which net/http cancels as soon as
+	// the handler returns, so the post (and any retry) would be abandoned.  BackendHandler.DispatchEvent does the same.
+	// A deadline set by the caller (sendStopEvent) is kept; the post is bounded by max-request-elapsed-time as before.
+	postCtx := context.WithoutCancel(ctx)
+	cancel := func() {}
+	if deadline, ok := ctx.Deadline(); ok {
+		postCtx, cancel = context.WithDeadline(postCtx, deadline)
+	}
+	go func() {
+		defer cancel()
+		hfh.dispatchEvent(postCtx, e)
+	}()
 }
 
 func (hfh *HttpForwarderHandlerV2) dispatchEvent(ctx context.Context, e *gostatsd.Event) {
